@@ -104,32 +104,12 @@ func checkC08(c *Check, p *Program) {
 			if !ok || call.Common().StaticCallee() == nil {
 				return
 			}
-			need := int64(0)
-			switch call.Common().StaticCallee().String() {
-			case "(encoding/binary.bigEndian).Uint16":
-				need = 2
-			case "(encoding/binary.bigEndian).Uint32":
-				need = 4
-			default:
+			need := byteOrderWidth(call.Common().StaticCallee())
+			if need == 0 {
 				return
 			}
-			arg := call.Common().Args[len(call.Common().Args)-1]
 			d := newDecodeCtx(p, fn, func(*ssa.Function) bool { return false })
-			ok2 := false
-			if sl, isSl := arg.(*ssa.Slice); isSl && d.isData(sl.X) && sl.Max == nil {
-				lo, isK := int64(0), true
-				if sl.Low != nil {
-					lo, isK = constInt(sl.Low)
-				}
-				if isK && sl.High == nil {
-					ok2 = d.lenLB(call.Block(), nil) >= lo+need
-				} else if hi, isH := constInt(sl.High); isK && sl.High != nil && isH {
-					// data[lo:hi]: the window holds the read and lies within the payload
-					ok2 = hi-lo >= need && d.lenLB(call.Block(), nil) >= hi
-				}
-			} else if d.isData(arg) {
-				ok2 = d.lenLB(call.Block(), nil) >= need
-			}
+			ok2 := byteOrderArgOK(d, call, need)
 			c.Decide(ok2, "C08.panic", helperName(fn)+" big-endian read within the payload", p.InstrPos(call), fmt.Sprintf("len(data) guard leaves >= %d bytes for the read", need), "binary.BigEndian read on a slice that may be too short (panics)")
 		})
 	}
